@@ -265,7 +265,8 @@ def body (cfg : Cfg) (w : World) (s : SState) (v : Verb) (rest : Str) (arg : PPa
     else
       (w, { s with passive := true, dataConn := false }, { replies := [227], dataClosed := s.dataConn })
   | .epsv =>
-    if !rest.isEmpty then (w, { s with alive := false }, { replies := [522] })
+    -- whether the 522 exit ends the session is read off the source (`return False` sites)
+    if !rest.isEmpty then (w, { s with alive := !(Verb.epsv.closingCodes.contains 522) }, { replies := [522] })
     else (w, { s with passive := true, dataConn := false }, { replies := [229], dataClosed := s.dataConn })
   | .abor => (w, s, { replies := [226] })    -- sequential setting: never a running worker
   | .rest =>
